@@ -4,6 +4,7 @@ import TRV.Model.Classify
 import TRV.Model.Drivers
 import TRV.Generated.LogicPackets
 import TRV.Generated.LogicIcmp
+import TRV.Proofs.BeNat
 /-!
 # Tie theorems: allocators, link-layer strip, `ReadAndParse`, `getRTTFromRelSeq` — model = regenerated tree
 
@@ -47,7 +48,8 @@ def interpStrip (f : Bytes) (r : R) : Link.Strip :=
 theorem tie_stripEthernetHeader (f : Bytes) :
     interpStrip f (LogicPackets.stripEthernetHeader.run
       { «(&zero(github.com/google/gopacket/layers.Ethernet)).DecodeFromBytes(buf, gopacket.NilDecodeFeedback) == nil» := decide (14 ≤ f.length)
-        «zero(github.com/google/gopacket/layers.Ethernet).EthernetType» := (u16 f 12).getD 0 }) = Link.strip f := by
+        «zero(github.com/google/gopacket/layers.Ethernet).EthernetType» := (u16 f 12).getD 0
+        «zero(github.com/google/gopacket/layers.Ethernet).Payload» := f.drop 14 }) = Link.strip f := by
   unfold Link.strip LogicPackets.stripEthernetHeader.run
   by_cases h : f.length < 14
   · have : ¬ 14 ≤ f.length := by omega
@@ -120,6 +122,47 @@ theorem tie_icmp_getRTT (s : Drv.IcmpSt) (seq : Nat) (rtt : Int) :
       have h4 : ¬ seq > s.cfg.max := by omega
       cases hf : s.find seq <;> simp [h, hm, h3, h4, hf, R.okAt, R.get]
 
+/-- `ParseTCPFirstBytes` reads the ports at octets 0 and 2 and the sequence number at octet 4 of the
+    quoted transport header and needs 8 octets: the model's `quotedPorts` / `quotedSeq` -/
+theorem tie_parseTCPFirstBytes (p : Bytes) :
+    let r := LogicPackets.ParseTCPFirstBytes.run { «buffer» := p }
+    (r.okAt "1" = ((Drv.quotedPorts p).isSome && (Drv.quotedSeq p).isSome)) ∧
+    (∀ sp dp sq, Drv.quotedPorts p = some (sp, dp) → Drv.quotedSeq p = some sq →
+      r.get "0.SrcPort" = some (V.int sp) ∧ r.get "0.DstPort" = some (V.int dp) ∧ r.get "0.Seq" = some (V.int sq)) := by
+  by_cases hl : p.length < 8
+  · have hlI : ((p.length : Nat) : Int) < 8 := by omega
+    simp [LogicPackets.ParseTCPFirstBytes.run, Drv.quotedPorts, Drv.quotedSeq, hl, hlI, R.okAt, R.get]
+  · have hlI : ¬ (((p.length : Nat) : Int) < 8) := by omega
+    obtain ⟨a, ha⟩ := Proofs.BeNat.u16_some_of_len (b := p) (k := 0) (by omega)
+    obtain ⟨b, hb⟩ := Proofs.BeNat.u16_some_of_len (b := p) (k := 2) (by omega)
+    obtain ⟨c, hc⟩ := Proofs.BeNat.u16_some_of_len (b := p) (k := 4) (by omega)
+    obtain ⟨d, hd⟩ := Proofs.BeNat.u16_some_of_len (b := p) (k := 6) (by omega)
+    have h32 : u32 p 4 = some (c * 65536 + d) := by simp [u32, hc, hd]
+    have e0 : Logic.be (p.take 2) 2 = a := by simpa using Proofs.BeNat.be16_of_u16 ha
+    have e2 : Logic.be ((p.drop 2).take 2) 2 = b := by simpa using Proofs.BeNat.be16_of_u16 hb
+    have e4 : Logic.be ((p.drop 4).take 4) 4 = c * 65536 + d := by simpa using Proofs.BeNat.be32_of_u32 h32
+    simp [LogicPackets.ParseTCPFirstBytes.run, Drv.quotedPorts, Drv.quotedSeq, hl, hlI, ha, hb, h32, e0, e2, e4, R.okAt, R.get]
+    try (intro sp dp sq h1 h2 h3; omega)
+
+/-- `ParseUDPFirstBytes`: ports at octets 0 and 2, 8 octets needed — the model's `quotedPorts` -/
+theorem tie_parseUDPFirstBytes (p : Bytes) :
+    let r := LogicPackets.ParseUDPFirstBytes.run { «buffer» := p }
+    (r.okAt "1" = (Drv.quotedPorts p).isSome) ∧
+    (∀ sp dp, Drv.quotedPorts p = some (sp, dp) →
+      r.get "0.SrcPort" = some (V.int sp) ∧ r.get "0.DstPort" = some (V.int dp)) := by
+  by_cases hl : p.length < 8
+  · have hlI : ((p.length : Nat) : Int) < 8 := by omega
+    simp [LogicPackets.ParseUDPFirstBytes.run, Drv.quotedPorts, hl, hlI, R.okAt, R.get]
+  · have hlI : ¬ (((p.length : Nat) : Int) < 8) := by omega
+    obtain ⟨a, ha⟩ := Proofs.BeNat.u16_some_of_len (b := p) (k := 0) (by omega)
+    obtain ⟨b, hb⟩ := Proofs.BeNat.u16_some_of_len (b := p) (k := 2) (by omega)
+    have e0 : Logic.be (p.take 2) 2 = a := by simpa using Proofs.BeNat.be16_of_u16 ha
+    have e2 : Logic.be ((p.drop 2).take 2) 2 = b := by simpa using Proofs.BeNat.be16_of_u16 hb
+    simp [LogicPackets.ParseUDPFirstBytes.run, Drv.quotedPorts, hl, hlI, ha, hb, e0, e2, R.okAt, R.get]
+    try (intro sp dp h1 h2; omega)
+
+#print axioms tie_parseTCPFirstBytes
+#print axioms tie_parseUDPFirstBytes
 #print axioms tie_allocPacketID
 #print axioms tie_nextEchoID
 #print axioms tie_stripEthernetHeader
